@@ -2,9 +2,9 @@ package main
 
 import (
 	"fmt"
-	"regexp"
 	"go/types"
 	"math/big"
+	"regexp"
 	"sort"
 	"strings"
 
